@@ -222,13 +222,14 @@ func (fs *Filespace) WriteFile(destPath string, data []byte, filemode os.FileMod
 	dir.Lock()
 	defer dir.Unlock()
 	if node, err = dir.getNode(destNodeName); err != nil {
-		file = NewFile(destNodeName, filesystem.DefaultUnixFileMode, time.Now(), data)
+		var datacopy = make([]byte, len(data))
+		copy(datacopy, data)
+		file = NewFile(destNodeName, filesystem.DefaultUnixFileMode, time.Now(), datacopy)
 		return dir.addNode(file)
 	}
 	if file, ok = node.(*File); !ok {
 		return goaterr.Errorf("Node %s must be a file", destPath)
 	}
-	file.time = time.Now()
 	file.setData(data)
 	return nil
 }
